@@ -180,6 +180,21 @@ func rulesC18(c *Ctx) {
 				c.Check(!held["Server.mu"], "notifySessions:fan-out-unlocked:"+name.fn, nf, call, "the fan-out runs without s.mu (held: %s)", setString(held))
 			}
 		}
+		// a timer that fired always announces: once the slot is cleared every path reaches both fan-outs (no "nothing new
+		// since the last announcement" shortcut — the change that armed this timer may be exactly what it would skip)
+		for _, name := range []struct{ recv, fn string }{{"", "notifySessions"}, {"Server", "notifySubscribedSessions"}} {
+			o := c.FnObj(pM, name.recv, name.fn)
+			vs := ng.callVertices(o)
+			okAll, p := ng.MustPass(ng.VertexOf(clr), ng.Exits, func(v int) bool {
+				for _, u := range vs {
+					if u == v {
+						return true
+					}
+				}
+				return false
+			})
+			c.Check(okAll && len(vs) > 0, "notifySessions:fired-timer-always-announces:"+name.fn, nf, clr, "every path from clearing the slot to the end of notifySessions passes the fan-out %s", ng.PathString(p))
+		}
 	})
 
 	c.Rule("R-C18-3", "only entitled sessions are notified: legacy sessions by protocol version, modern ones only through the subscription map of that notification; subscriptions are granted only for advertised capabilities; resource updates go to the subscribers of that URI", func() {
